@@ -373,6 +373,8 @@ def main(argv=None):
     ap.add_argument("--replay", default=None)
     ap.add_argument("--one", type=int, default=None, help="execute a single run index in-process and print its outcome")
     ap.add_argument("--digests", action="store_true", help="print run-index:digest lines (determinism self-test)")
+    ap.add_argument("--roundtrip", type=int, default=None,
+                    help="self-test: execute the first N runs and replay each recorded trace from its JSON text; digests must agree")
     ap.add_argument("--no-minimise", action="store_true")
     ap.add_argument("--signatures", action="store_true", help="list every distinct unknown violation signature with counts")
     ap.add_argument("--no-evidence", action="store_true")
@@ -388,6 +390,19 @@ def main(argv=None):
         return selftest.main(a)
     if a.replay:
         return do_replay(a.prop, a.replay, a.quiet)
+    if a.roundtrip is not None:
+        eng = load_engine(a.prop)
+        bad = 0
+        for r in range(a.roundtrip):
+            out = eng.run(kernel.derive_seed(a.seed, a.prop, r))
+            if out.trace is None:
+                continue
+            o2 = eng.replay(json.loads(json.dumps(out.trace, default=kernel._json_default)))
+            if o2.log.digest() != out.log.digest():
+                bad += 1
+                print("ROUNDTRIP-MISMATCH property=%s run=%d %s != %s" % (a.prop, r, out.log.digest(), o2.log.digest()))
+        print("ROUNDTRIP %s: %d runs, %d mismatches" % (a.prop, a.roundtrip, bad))
+        return 2 if bad else 0
     if a.one is not None:
         eng = load_engine(a.prop)
         out = eng.run(kernel.derive_seed(a.seed, a.prop, a.one))
